@@ -7,26 +7,29 @@ type merkleDamgardHasher struct {
 }
 
 // Write implements hash.Write
+//
+// If an error occurs the state of the hasher is left unchanged.
 func (h *merkleDamgardHasher) Write(p []byte) (n int, err error) {
 	blockSize := h.f.BlockSize()
+	state := h.state
 	for len(p) != 0 {
 		if len(p) < blockSize {
 			p = append(make([]byte, blockSize-len(p), blockSize), p...)
 		}
-		if h.state, err = h.f.Compress(h.state, p[:blockSize]); err != nil {
-			return
+		if state, err = h.f.Compress(state, p[:blockSize]); err != nil {
+			return 0, err
 		}
 		n += blockSize
 		p = p[blockSize:]
 	}
+	h.state = state
 	return
 }
 
+// Sum appends the current hash to b and returns the resulting slice.
+// It does not change the underlying hash state.
 func (h *merkleDamgardHasher) Sum(b []byte) []byte {
-	if _, err := h.Write(b); err != nil {
-		panic(err)
-	}
-	return h.state
+	return append(b, h.state...)
 }
 
 func (h *merkleDamgardHasher) Reset() {
@@ -42,11 +45,11 @@ func (h *merkleDamgardHasher) BlockSize() int {
 }
 
 func (h *merkleDamgardHasher) State() []byte {
-	return h.state
+	return append([]byte(nil), h.state...)
 }
 
 func (h *merkleDamgardHasher) SetState(state []byte) error {
-	h.state = state
+	h.state = append([]byte(nil), state...)
 	return nil
 }
 
